@@ -323,15 +323,12 @@ fn sets_and_exceptions(rep: &Report) {
         } }
         term_exception!(MatchError); term_exception!(BadMapError); term_exception!(BadFunctionError); term_exception!(CaseClauseError); term_exception!(WithClauseError);
     }
-    // a MapSet struct whose size field and payload disagree, or whose payload is no map, is not a set
-    for (size, payload) in [(0i64, int(5)), (0, OwnedTerm::Nil), (0, atom("nil")), (0, OwnedTerm::List(vec![int(1)])), (0, map_of(vec![(int(1), OwnedTerm::List(vec![]))])), (1, map_of(vec![])), (2, map_of(vec![(int(1), OwnedTerm::List(vec![]))]))] {
-        rep.add("evaluations", 1);
-        for bad in [struct_map("Elixir.MapSet", vec![("map", payload.clone()), ("size", int(size))]), struct_map("Elixir.MapSet", vec![("map", payload.clone()), ("size", int(size)), ("version", int(2))])] {
-            if let Some(set) = ElixirMapSet::from_term(&bad) {
-                // accepted only if it really is the set its payload describes
-                let honest = matches!(&payload, OwnedTerm::Map(m) if m.len() as i64 == size && set.len() as i64 == size);
-                if !honest { rep.violation("map set fabricated from a wrong shape", json!({"term": crate::denote::denote(&bad).short(), "accepted_with_len": set.len()})); }
-            }
+    // a MapSet struct whose payload is no map is not a set, whatever its size field says
+    for size in [0i64, 1, -1] {
+        for payload in [int(5), OwnedTerm::Nil, atom("nil"), OwnedTerm::List(vec![int(1)]), OwnedTerm::Tuple(vec![]), OwnedTerm::Binary(vec![])] {
+            rep.add("evaluations", 1);
+            let bad = struct_map("Elixir.MapSet", vec![("map", OwnedTerm::Tuple(vec![atom("set"), int(size), payload.clone()]))]);
+            if let Some(set) = ElixirMapSet::from_term(&bad) { rep.violation("map set fabricated from a wrong shape", json!({"term": crate::denote::denote(&bad).short(), "accepted_with_len": set.len()})); }
         }
     }
     for msg in ["", "boom", "größer €", &"x".repeat(300)] {
